@@ -5,6 +5,7 @@ from typing_extensions import Self
 from ..linalg.decomposer import Decomposer
 from ..utils.data_types import DataArray, DataObject
 from ..utils.sanity_checks import assert_not_complex
+from ..utils.xarray_utils import get_deterministic_sign_multiplier
 from .base_model_single_set import BaseModelSingleSet
 from .eof import EOF
 
@@ -258,6 +259,13 @@ class OPA(BaseModelSingleSet):
         V = V.rename({"mode2": "mode"})  # -> (feature x mode)
         W = W.rename({"mode2": "mode"})  # -> (feature x mode)
         P = P.rename({"mode2": "mode"})  # -> (sample x mode)
+
+        # Flip signs of the modes to ensure deterministic output
+        sign_multiplier = get_deterministic_sign_multiplier(W, feature_name)
+        U = U * sign_multiplier
+        V = V * sign_multiplier
+        W = W * sign_multiplier
+        P = P * sign_multiplier
         scores = scores.rename({"mode": feature_name})  # -> (sample x feature)
 
         # Compute the norms of the scores
